@@ -940,6 +940,60 @@ func runC02(c *core.Ctx) core.Meta {
 		}
 	}
 
+	// ---------------- R02.13 store data is merged lane by lane ----------------
+	st13 := c.Rule("R02.13", "the coalescer merges the data of a multi-dword store in the order the emulator writes it: lane by lane, each lane's dwords in register order. In every function of the compute unit that feeds store data into write requests (calls findOrCreateWriteReq), the loop over the lanes (bound 64) encloses the loop over the data registers. The emulator's flat_store_dwordx2/x3/x4 handlers write all bytes of lane i before lane i+1, so where the ranges of two active lanes overlap the higher lane wins; a register-major merge lets a lower lane's later register win and the final memory differs", 1)
+	{
+		pcu := NewPkgInfo(c, cuPkg)
+		for _, fn := range pcu.Funcs {
+			feeds := false
+			for _, b := range fn.Blocks {
+				for _, in := range b.Instrs {
+					if cc := core.CallOf(in); cc != nil && cc.StaticCallee() != nil && cc.StaticCallee().Name() == "findOrCreateWriteReq" {
+						feeds = true
+					}
+				}
+			}
+			if !feeds {
+				continue
+			}
+			var laneHdr, regHdr *ssa.BasicBlock
+			for _, b := range fn.Blocks {
+				for _, in := range b.Instrs {
+					phi, ok := in.(*ssa.Phi)
+					if !ok {
+						break
+					}
+					// the loop test: phi < N
+					if phi.Referrers() == nil {
+						continue
+					}
+					for _, r := range *phi.Referrers() {
+						cmp, ok := r.(*ssa.BinOp)
+						if !ok || cmp.Op != token.LSS || cmp.X != ssa.Value(phi) {
+							continue
+						}
+						if k, isC := core.ConstInt(cmp.Y); isC && k == 64 {
+							laneHdr = b
+						} else if !isC {
+							regHdr = b
+						}
+					}
+				}
+			}
+			if laneHdr == nil || regHdr == nil {
+				continue
+			}
+			st13.Instances++
+			c.MarkAnalysed(fn)
+			ok := laneHdr != regHdr && laneHdr.Dominates(regHdr)
+			st13.Ob(ok)
+			st13.Sample("%s: the lane loop encloses the register loop: %v", core.FuncName(fn), ok)
+			if !ok {
+				c.ReportAt("R02.13", fn, fn.Pos(), "store-merge-order:"+core.FuncName(fn), core.FuncName(fn)+" walks the data registers in the outer loop and the lanes in the inner one: the dwords of a multi-dword store are merged register-major, while the emulator writes lane by lane. For two active lanes whose ranges overlap at different register indices (lane 0 at A, lane 1 at A+4, dwordx2) the emulator ends with the higher lane's dword in the shared location, the timing model with the lower lane's second register")
+			}
+		}
+	}
+
 	// ---------------- R02.12 the shared ALU runs a DS instruction on the LDS of the executing wave ----------------
 	st12 := c.Rule("R02.12", "one emu.ALU per compute unit is shared by all execution units and keeps the LDS it works on as state: in the unit that binds it (the type whose methods call ALU.SetLDS), every ALU.Run(w) is dominated, in the same function, by a SetLDS whose argument is the LDS of that same wave w. The unit is a pipeline: a binding made when a wave is accepted is overwritten by the next wave before the first one executes, and a DS instruction of one work-group then reads and writes another work-group's LDS (emulation runs one work-group at a time and is unaffected)", 1)
 	{
